@@ -78,8 +78,25 @@ func (x *Unit) sp(st *State, e ast.Expr, c *specCtx) Val {
 			return v
 		}
 	case *ast.BinaryExpr:
-		a := x.sp(st, e.X, c)
-		b := x.sp(st, e.Y, c)
+		var a, b Val
+		if isResultOf(e.X) && !isResultOf(e.Y) {
+			b = x.sp(st, e.Y, c)
+			saved := x.witnessHint
+			x.witnessHint = b.Typ
+			if b.Typ != nil && isUntypedNil(b.Typ) {
+				x.witnessHint = types.Universe.Lookup("error").Type()
+			}
+			a = x.sp(st, e.X, c)
+			x.witnessHint = saved
+		} else {
+			a = x.sp(st, e.X, c)
+			saved := x.witnessHint
+			if isResultOf(e.Y) {
+				x.witnessHint = a.Typ
+			}
+			b = x.sp(st, e.Y, c)
+			x.witnessHint = saved
+		}
 		switch e.Op {
 		case token.LAND:
 			return Val{And(a.T, b.T), boolT}
@@ -137,11 +154,11 @@ func (x *Unit) sp(st *State, e ast.Expr, c *specCtx) Val {
 			lo = x.sp(st, e.Low, c).T
 		}
 		if b.Sort == SStr {
-			hi := App(SInt, "str.len", b.T)
+			hi := App(SInt, "gs.len", b.T)
 			if e.High != nil {
 				hi = x.sp(st, e.High, c).T
 			}
-			return Val{App(SStr, "str.sub", b.T, lo, hi), b.Typ}
+			return Val{App(SStr, "gs.sub", b.T, lo, hi), b.Typ}
 		}
 		if _, ok := x.u.sliceElem[b.Sort]; ok {
 			hi := x.u.SliceLen(b.T)
@@ -370,7 +387,7 @@ func (x *Unit) spIndex(st *State, b, i Val, e ast.Node) Val {
 		return Val{Select(x.u.MapVal(b.T), k.T), et}
 	}
 	if b.Sort == SStr {
-		return Val{App(SInt, "str.at", b.T, i.T), types.Typ[types.Byte]}
+		return Val{App(SInt, "gs.at", b.T, i.T), types.Typ[types.Byte]}
 	}
 	if strings.HasPrefix(string(b.Sort), "(Array ") {
 		var et types.Type
@@ -471,7 +488,7 @@ func (x *Unit) spCall(st *State, e *ast.CallExpr, c *specCtx) Val {
 		a := arg(0)
 		switch {
 		case a.Sort == SStr:
-			return Val{App(SInt, "str.len", a.T), intT}
+			return Val{App(SInt, "gs.len", a.T), intT}
 		case x.u.sliceElem[a.Sort] != "":
 			return Val{x.u.SliceLen(a.T), intT}
 		case x.u.mapKV[a.Sort][0] != "":
@@ -509,6 +526,24 @@ func (x *Unit) spCall(st *State, e *ast.CallExpr, c *specCtx) Val {
 	case "doneAt":
 		ctx := arg(0)
 		return Val{x.uf("doneAt", SInt, ctx.T), intT}
+	case "calls":
+		k := "calls:" + x.srcOf(e.Args[0])
+		if x.letWitness > 0 {
+			// at a call site this counts calls made inside the callee: a witness
+			if v, ok := x.witMemo[k]; ok {
+				return v
+			}
+			v := Val{x.fresh("witness", SInt), intT}
+			x.witMemo[k] = v
+			return v
+		}
+		if v, ok := st.ghost[k]; ok {
+			return v
+		}
+		if v, ok := x.entry.ghost[k]; ok {
+			return v
+		}
+		return Val{IntLit(0), intT}
 	case "result_of":
 		ft := x.srcOf(e.Args[0])
 		idx := 0
@@ -526,7 +561,12 @@ func (x *Unit) spCall(st *State, e *ast.CallExpr, c *specCtx) Val {
 		}
 		if x.letWitness > 0 {
 			// at a call site the callee's internal call result is an (existential) witness
-			return Val{x.fresh("witness", SInt), intT}
+			if v, ok := x.witMemo[k]; ok {
+				return v
+			}
+			v := Val{x.fresh("witness", x.witnessSort(c)), x.witnessTyp}
+			x.witMemo[k] = v
+			return v
 		}
 		x.specErr(e, "no call of %s recorded on this path", ft)
 		return Val{x.fresh("bad", SInt), nil}
@@ -576,7 +616,7 @@ func (x *Unit) spCall(st *State, e *ast.CallExpr, c *specCtx) Val {
 		if c.old == nil {
 			return Val{True, boolT}
 		}
-		return Val{Cmp(">", a.T, c.old.alloc), boolT}
+		return Val{And(Cmp(">", a.T, c.old.alloc), Cmp(">", x.proot(a.T), c.old.alloc)), boolT}
 	case "arg":
 		id := e.Args[0].(*ast.Ident)
 		if v, ok := c.args[id.Name]; ok {
@@ -869,4 +909,23 @@ func (x *Unit) specLV(st *State, e ast.Expr, c *specCtx) *LV {
 	}
 	x.specErr(e, "cannot resolve location")
 	return nil
+}
+
+// witnessSort: result_of witnesses take the sort expected by the surrounding comparison when known (default Int).
+func (x *Unit) witnessSort(c *specCtx) Sort {
+	x.witnessTyp = intT
+	if x.witnessHint != nil {
+		x.witnessTyp = x.witnessHint
+		return x.u.SortOf(x.witnessHint)
+	}
+	return SInt
+}
+
+func isResultOf(e ast.Expr) bool {
+	c, ok := ast.Unparen(e).(*ast.CallExpr)
+	if !ok {
+		return false
+	}
+	id, ok := c.Fun.(*ast.Ident)
+	return ok && id.Name == "result_of"
 }
